@@ -419,10 +419,10 @@ def fam_bundle_fixed():
     for dn, mk in (("mul-s", lambda: ["bin", "*", V("b"), V("s")]), ("add-k", lambda: ["bin", "+", V("b"), K(3)]), ("filter", lambda: ["cond", ["cmp", ">", V("b"), K(0)], V("b")])):
         for bn, blit in (("const", L3i), ("in", LIN)):
             head = [["bun", "b", blit], ["bun", "c1", mk()], ["bun", "d1", mk()]]
-            add(f"dupviews-{dn}-{bn}-sel-sel", head + [["sig", "p", ["proj", ["bin", "+", ["sel", V("d1"), "iron-plate"], K(1)], "signal-X"]], ["sig", "q", ["proj", ["bin", "+", ["sel", V("d1"), "coal" if bn == "const" else "copper-plate"], K(1)], "signal-Y"]], ["bun", "keep", ["bin", "+", V("c1"), K(0)]]])
-            add(f"dupviews-{dn}-{bn}-any-all", head + [["sig", "p", ["proj", ["cmp", ">", ["any", V("d1")], K(50)], "signal-X"]], ["sig", "q", ["proj", ["cmp", ">", ["all", V("d1")], K(50)], "signal-Y"]], ["bun", "keep", ["bin", "+", V("c1"), K(0)]]])
-            add(f"dupviews-{dn}-{bn}-sel-each", head + [["sig", "p", ["proj", ["bin", "*", ["sel", V("d1"), "iron-plate"], K(2)], "signal-X"]], ["bun", "q", ["bin", "*", V("d1"), K(2)]], ["bun", "keep", ["bin", "+", V("c1"), K(0)]]])
-            add(f"dupviews-{dn}-{bn}-first-copy-views", head + [["sig", "p", ["proj", ["bin", "+", ["sel", V("c1"), "iron-plate"], K(1)], "signal-X"]], ["sig", "q", ["proj", ["bin", "+", ["sel", V("d1"), "coal" if bn == "const" else "copper-plate"], K(1)], "signal-Y"]]])
+            add(f"dupviews-{dn}-{bn}-sel-sel", head + [["sig", "vp", ["proj", ["bin", "+", ["sel", V("d1"), "iron-plate"], K(1)], "signal-X"]], ["sig", "vq", ["proj", ["bin", "+", ["sel", V("d1"), "coal" if bn == "const" else "copper-plate"], K(1)], "signal-Y"]], ["bun", "keep", ["bin", "+", V("c1"), K(0)]]])
+            add(f"dupviews-{dn}-{bn}-any-all", head + [["sig", "vp", ["proj", ["cmp", ">", ["any", V("d1")], K(50)], "signal-X"]], ["sig", "vq", ["proj", ["cmp", ">", ["all", V("d1")], K(50)], "signal-Y"]], ["bun", "keep", ["bin", "+", V("c1"), K(0)]]])
+            add(f"dupviews-{dn}-{bn}-sel-each", head + [["sig", "vp", ["proj", ["bin", "*", ["sel", V("d1"), "iron-plate"], K(2)], "signal-X"]], ["bun", "vq", ["bin", "*", V("d1"), K(2)]], ["bun", "keep", ["bin", "+", V("c1"), K(0)]]])
+            add(f"dupviews-{dn}-{bn}-first-copy-views", head + [["sig", "vp", ["proj", ["bin", "+", ["sel", V("c1"), "iron-plate"], K(1)], "signal-X"]], ["sig", "vq", ["proj", ["bin", "+", ["sel", V("d1"), "coal" if bn == "const" else "copper-plate"], K(1)], "signal-Y"]]])
     add("chain3-add", [["bun", "b", LIN], ["bun", "r", ["bin", "+", ["bin", "+", ["bin", "+", V("b"), K(1)], K(2)], K(3)]]])
     add("chain3-mul", [["bun", "b", LIN], ["bun", "r", ["bin", "*", ["bin", "*", ["bin", "*", V("b"), K(2)], K(3)], K(5)]]])
     add("chain3-gates", [["bun", "b", LIN], ["bun", "g", ["cond", ["cmp", ">", V("s"), K(2)], V("b")]], ["bun", "h", ["cond", ["cmp", ">", V("t"), K(0)], V("g")]], ["bun", "i", ["cond", ["cmp", "<", V("s"), K(100)], V("h")]]])
@@ -1786,6 +1786,26 @@ def corpus_c11(tier):
         cases.append({"id": f"fold-zero-cond-compound-{nm}", "family": "fold", "stmts": ins + pre + [["sig", "o", ["proj", ["bin", "+", ["cond", ["and", ["cmp", ">", X, K(3)], ["cmp", "<", Y, K(9)]], kexpr], Y], "signal-X"]]], "kind": "stateless", "params": {"places": True}})
     cases.append({"id": "fold-zero-loop-iter-output", "family": "fold", "stmts": ins + [["for", "i", ["range", 0, 3, None], [["place", "l", "small-lamp", V("i"), K(0), None], ["enable", "l", ["cmp", ">", ["bin", "+", ["cond", ["cmp", ">", X, V("i")], V("i")], Y], K(0)]]]]], "kind": "stateless", "params": {"places": True}})
     cases.append({"id": "fold-zero-bundle-filter-const", "family": "fold", "stmts": ins + [["bun", "b", ["bundle", [X, Y]]], ["bun", "r", ["cond", ["cmp", ">", V("b"), K(3)], K(0)]], ["bun", "r5", ["cond", ["cmp", ">", V("b"), K(3)], K(5)]]], "kind": "stateless", "params": {"places": True}})
+    # "replacing any constant operand by an input signal holding the same value never changes any output": ONE constant
+    # operand (left / right; literal, int variable, int parameter, iterator), the other operand an input
+    P_ = lambda e: ["proj", e, "signal-X"]  # noqa: E731
+    for op in list(ARITH) + list(CMPS):
+        mk = (lambda l, r, op=op: ["bin", op, l, r]) if op in ARITH else (lambda l, r, op=op: ["cmp", op, l, r])
+        kvals = (("1", 1), ("2", 2), ("neg3", -3), ("1000", 1000))
+        if tier == "quick":
+            kvals = kvals[:2] if op in ARITH else kvals[1:2]
+        for kn, kv in kvals:
+            if op in ("<<", ">>", "**") and not 0 <= kv <= 8:
+                rights = ()
+            else:
+                rights = ("right",)
+            for side in ("left",) + rights:
+                e_of = (lambda kx: mk(kx, X)) if side == "left" else (lambda kx: mk(X, kx))
+                cases.append({"id": f"halfconst-{side}-lit-{op}-{kn}", "family": "halfconst", "stmts": ins + [["sig", "o", P_(e_of(K(kv)))]], "kind": "stateless", "params": {"places": True}})
+                if tier != "quick" or kn == "2":
+                    cases.append({"id": f"halfconst-{side}-intvar-{op}-{kn}", "family": "halfconst", "stmts": ins + [["int", "k", K(kv)], ["sig", "o", P_(e_of(V("k")))]], "kind": "stateless", "params": {"places": True}})
+                    cases.append({"id": f"halfconst-{side}-param-{op}-{kn}", "family": "halfconst", "stmts": ins + [["func", "h", [["Signal", "v"], ["int", "n"]], [], mk(V("n"), V("v")) if side == "left" else mk(V("v"), V("n"))], ["sig", "o", P_(["call", "h", [X, K(kv)]])]], "kind": "stateless", "params": {"places": True}})
+                    cases.append({"id": f"halfconst-{side}-iter-{op}-{kn}", "family": "halfconst", "stmts": ins + [["for", "i", ["list", [kv]], [["place", "l", "small-lamp", K(0), K(0), None], ["enable", "l", ["cmp", ">", e_of(V("i")), Y]]]]], "kind": "stateless", "params": {"places": True}})
     for op, pairs in FOLD_PAIRS.items():
         if tier == "quick":
             pairs = pairs[:3] if op in ARITH else pairs[:1]
@@ -1937,6 +1957,10 @@ def fam_layout_fixed():
                                            ["place", "l1", "small-lamp", K(sx * 20), K(sy * 2), None], ["place", "l2", "small-lamp", K(sx * 20), K(sy * 5), None], ["enable", "l1", ["cmp", ">", ["any", V("o1")], K(5)]], ["enable", "l2", ["cmp", ">", ["any", V("o2")], K(5)]]])
         add(f"two-chests-two-lamps-30-{qn}", [["place", "c1", "steel-chest", K(sx * 1), K(sy * 3), None], ["place", "c2", "steel-chest", K(sx * 1), K(sy * 6), None], ["bun", "o1", ["out", "c1"]], ["bun", "o2", ["out", "c2"]],
                                               ["place", "l1", "small-lamp", K(sx * 31), K(sy * 3), None], ["place", "l2", "small-lamp", K(sx * 31), K(sy * 6), None], ["enable", "l1", ["cmp", ">", ["any", V("o1")], K(5)]], ["enable", "l2", ["cmp", ">", ["any", V("o2")], K(5)]]])
+    # two routes from adjacent rows that CROSS (each chest drives the lamp of the other row), in every quadrant
+    for qn, (lx, y0, y1) in (("pos", (20, 0, 1)), ("neg-y", (20, -4, -3)), ("neg-x", (-20, 0, 1)), ("neg-xy", (-20, -4, -3)), ("neg-y-30", (30, -7, -6))):
+        add(f"crossing-routes-{qn}", [["place", "c1", "steel-chest", K(0), K(y0), None], ["place", "c2", "steel-chest", K(0), K(y1), None], ["place", "l1", "small-lamp", K(lx), K(y1), None], ["place", "l2", "small-lamp", K(lx), K(y0), None],
+                                      ["place", "anchor", "small-lamp", K(0), K(6), None], ["bun", "b1", ["out", "c1"]], ["bun", "b2", ["out", "c2"]], ["enable", "l1", ["cmp", ">", ["any", V("b1")], K(0)]], ["enable", "l2", ["cmp", ">", ["any", V("b2")], K(5)]]])
     # every latch form (value: 1 / constant / declared input / computed; conditions inlined / as signals), compact and with far consumers
     VL = ["input", "vl", "signal-L", 10067]
     SS, RR = ["input", "s", "signal-S", 10039], ["input", "r", "signal-R", 10061]
